@@ -1458,6 +1458,45 @@ func Emit(repo string) {
 	}
 	fmt.Printf("Definition eth_signers_from_signature : bool := %s.\n", CoqBool(recovered))
 
+	// keeper.VerifyFee (what the EVM ante handler deducts up front): is the amount WeiToNative(price × gasLimit),
+	// i.e. the conversion to the bank denom applied to TxData.EffectiveFeeWei — possibly through same-package
+	// helpers and single-definition locals — and never to the per-gas price?
+	feeOfTotal := false
+	{
+		kfiles := ParseDir(repo + "/x/evm/keeper")
+		if vf := findFunc(kfiles, "VerifyFee", ""); vf != nil {
+			convTotal, convPrice := false, false
+			for _, f := range helperClosure(kfiles, vf) {
+				locals := singleDefLocals(f)
+				unfold := func(e ast.Expr) string {
+					t := Nospace(e)
+					for i := 0; i < 3; i++ {
+						if v, ok := locals[t]; ok {
+							t = v
+						}
+					}
+					return t
+				}
+				ast.Inspect(f.Body, func(n ast.Node) bool {
+					c, ok := n.(*ast.CallExpr)
+					if !ok || lastIdent(c.Fun) != "WeiToNative" || len(c.Args) != 1 {
+						return true
+					}
+					a := unfold(c.Args[0])
+					if strings.Contains(a, "EffectiveFeeWei(") {
+						convTotal = true
+					}
+					if strings.Contains(a, "EffectiveGasPriceWeiPerGas(") || strings.Contains(a, "GetGasPrice(") || strings.Contains(a, "GetGasFeeCapWei(") {
+						convPrice = true
+					}
+					return true
+				})
+			}
+			feeOfTotal = convTotal && !convPrice
+		}
+	}
+	fmt.Printf("Definition verify_fee_of_total : bool := %s.\n", CoqBool(feeOfTotal))
+
 	// SigGasConsumer installed by app.go
 	sgc := "?"
 	for _, fl := range appFiles {
